@@ -237,6 +237,13 @@ func c19Run(c *Ctx, cs c19Case, count bool) {
 	}
 	if cs.Pol {
 		target.SetPushPolicy(func(...any) error { return nil })
+		// round 14: an option that is off is told so once more (half of the cases: those with a policy)
+		if !cs.Fwd {
+			target.SetForwardIndices(false)
+		}
+		if !cs.Neg {
+			target.SetNegativeIndices(false)
+		}
 	}
 	if cs.Prior > 0 {
 		var prior []any
